@@ -30,3 +30,4 @@ def rules(ctx):
     S.after_bound_rules(ctx)
     S.durability_guard_rules(ctx)
     S.survey2_rules(ctx)
+    S.oldest_search_rules(ctx)
